@@ -17,6 +17,8 @@ PROFILES = [
     ("two continuous states", {"p_w": 1.0, "p_z": 1.0, "p_h": 1.0, "p_r": 0.0, "sizes": SIZES}),
     ("three discrete states", {"p_r": 1.0, "p_h": 1.0, "p_e": 1.0, "p_w": 0.0, "p_z": 0.0, "sizes": SIZES, "max_cells": 2500}),
     ("random", {}),
+    ("a deterministic and a stochastic unrestricted discrete state", {"p_h": 1.0, "p_h_stoch": 0.0, "p_e": 1.0, "p_r": 0.0, "p_z": 0.0, "sizes": SIZES,
+                                                                      "T": [2, 3], "max_cells": 2500}),
     ("many variables (17-20), most with a single label", {"pad_states": 14, "p_w": 1.0, "p_h": 1.0, "p_r": 0.5, "p_z": 0.0, "p_e": 0.0, "p_d": 0.0,
                                                           "T": [1, 2], "max_cells": 2500}),
 ]
